@@ -495,7 +495,10 @@ Inductive pop :=
 | PSave                             (* Store.SaveIndex *)
 | PAutoSave (b : bool)              (* Store.AutoSaveIndex = b *)
 | PGCCancel (early : bool) (order : list sentry) (k : nat)
-| PPushBad (n : nat).               (* Push of a manifest-typed blob that does not decode *)
+| PPushBad (n : nat)                (* Push of a manifest-typed blob that does not decode *)
+| PGCBlocked (order : list sentry) (k : nat).
+  (* GC whose sweep fails at entry [k] of [order] (os.Remove fails: a non-empty directory
+     with a digest name): the entries before it were handled, the error is returned *)
   (* GC with a context that is cancelled: before the index is rebuilt ([early]) or in the
      sweep after [k] entries of [order] *)
 
@@ -549,6 +552,10 @@ Definition pstep (c : cfg) (kl : bool) (p : pstate) (o : pop) : pstate * res :=
   | PAutoSave b => ({| mem := mem p; disk := disk p; autosave := b |}, Ok)
   (* storage.Push succeeds, graph.Index fails, the blob is removed again: nothing changes *)
   | PPushBad _ => (p, EOther)
+  | PGCBlocked order k =>
+    let '(m, r) := gc_cancel c kl (fun _ => candidates (idx (mem p))) order k (mem p) in
+    (saved (autosave p && gc_saves_before_sweep && match r with ECanceled => true | _ => false end) p m,
+     match r with ECanceled => EOther | _ => r end)
   | PGCCancel true _ _ => (p, ECanceled)
   | PGCCancel false order k =>
     let '(m, r) := gc_cancel c kl (fun _ => candidates (idx (mem p))) order k (mem p) in
